@@ -125,7 +125,10 @@ class ResendRule(BaseRule):
             self.sites.append(Site("from_int", node, s, {"retries": src, "redirect": r, "default": d}))
             return [Out("normal", s, AV("unk", tags=frozenset(tags), truth=True, none=False, typ=RETRY, sym=f"policy@{node.lineno}"))]
         if isinstance(f, ast.Attribute) and f.attr == "increment" and recv is not None:
-            how = "error" if "error" in kw else ("response" if "response" in kw else "?")
+            b = it.bind_args(node, recv, pos, kw)
+            bk = {**kw, **b}
+            how = "error" if bk.get("error") is not None and not (bk["error"].kind == "const" and bk["error"].val is None) else ("response" if bk.get("response") is not None else "?")
+            kw = {k: v for k, v in bk.items() if k in ("error", "response", "_pool", "_stacktrace", "method", "url")} or kw
             base = recv.tags
             s = st.copy()
             s.log(node, f"increment({how}) ok")
@@ -180,7 +183,10 @@ class ResendRule(BaseRule):
             return ret(AV("unk", sym="absolute_form"))
         if t == "connection_requires_http_tunnel":
             s = st.copy()
-            self.sites.append(Site("tunnel_pred", node, s, {**{f"pos{i}": p for i, p in enumerate(pos)}, **{f"kw:{k}": v for k, v in kw.items()}}))
+            b = it.bind_args(node, recv, pos, kw)
+            names = ("proxy_url", "proxy_config", "destination_scheme")
+            self.sites.append(Site("tunnel_pred", node, s, {**{f"pos{i}": (b.get(n) if b else (pos[i] if i < len(pos) else None)) for i, n in enumerate(names)},
+                                                           **{f"kw:{k}": v for k, v in kw.items()}}))
             return [Out("normal", s, AV("unk", sym="tunnel_required"))]
         if isinstance(f, ast.Attribute) and f.attr == "copy" and recv is not None:
             return ret(AV("unk", tags=frozenset(recv.tags | {"copy"}), truth=recv.truth, none=False, sym=f"copy@{node.lineno}"))
